@@ -2,9 +2,10 @@
 C35 — message entity offsets and lengths are correct UTF-16 ranges.
 Property theorems only (helper lemmas: TdModel/Lemmas/C35.lean; model: TdModel/Model/C35.lean).
 
-`run ops` is the builder after an ARBITRARY list of operations (Plain, Write*, Format with any
-formatters, Token, Token.Apply of any earlier token — nested, adjacent, overlapping, repeated —,
-ShrinkPreCode) over arbitrary Unicode pieces (`List Char`: BMP, astral, combining marks, white
+`run ops` is the builder after an ARBITRARY list of operations (Plain, Write*, WriteRune of any
+int32 incl. invalid code points, Format with any formatters, Token, Token.Apply of any earlier
+token of the same message — nested, adjacent, overlapping, repeated —, ShrinkPreCode, Reset, i.e.
+re-use of one builder for several messages) over arbitrary Unicode pieces (`List Char`: BMP, astral, combining marks, white
 space are all just `Char`s); `complete` is `Builder.Complete` (repaired `fixEntities` + sort).
 `Ent.cs`/`Ent.ce` are ghost fields: the character span of the piece an entity was created for.
 -/
@@ -12,22 +13,36 @@ import TdModel.Lemmas.C35
 
 namespace TdModel.C35
 
-/-- `utf16RuneLen` (constants regenerated from the source) is the UTF-16 width of a scalar value:
-2 from U+10000 on, else 1. -/
-theorem u16_spec (c : Char) : u16 c = if 0x10000 ≤ c.toNat then 2 else 1 := by
-  have hv : c.toNat < 0x110000 := by
-    have := c.valid
-    simp only [UInt32.isValidChar, Nat.isValidChar] at this
-    simp only [Char.toNat, UInt32.toNat] at *
-    omega
-  unfold u16 Facts.C35.surrSelf Facts.C35.maxRune
-  split <;> split <;> omega
+/-- `utf16RuneLen`, as translated from the source, is the UTF-16 width of a Go `rune`: 2 for
+U+10000..U+10FFFF, 1 for everything else — including the values that are not Unicode scalar values
+(negative, surrogate halves, above U+10FFFF), for which `utf16.RuneLen` would return −1. -/
+theorem runeLen_spec (v : Int) : runeLen v = if 0x10000 ≤ v ∧ v ≤ 0x10FFFF then 2 else 1 :=
+  runeLen_eq v
+
+/-- …so on characters it is "2 from U+10000 on, else 1". -/
+theorem u16_spec (c : Char) : u16 c = if 0x10000 ≤ c.toNat then 2 else 1 := u16_eq c
+
+/-- `WriteRune(r)` advances the counter by exactly the UTF-16 width of the character it appends,
+for every `rune` value (invalid ones are appended as U+FFFD, width 1). -/
+theorem writeRune_width (r : Int) : runeLen r = (u16 (charOfRune r) : Int) := runeLen_charOfRune r
+
+/-- One iteration of `clampEntities`, as translated from the source: the offset is cut to `total`,
+then the length is cut so that (cut offset) + length ≤ `total`; nothing else changes. -/
+theorem clamp_spec (total : Int) (e : Ent) :
+    (clamp total e).off = (if e.off > total then total else e.off) ∧
+    (clamp total e).len =
+      (if (if e.off > total then total else e.off) + e.len > total
+       then total - (if e.off > total then total else e.off) else e.len) ∧
+    (clamp total e).kind = e.kind ∧ (clamp total e).lang = e.lang ∧
+    (clamp total e).cs = e.cs ∧ (clamp total e).ce = e.ce := clamp_eq total e
 
 /-- The shapes the model relies on, read from the current source: `utf16RuneLen` is the range
-test, `ComputeLength` sums it over the runes, `fixEntities` trims with
-`strings.TrimRightFunc(_, unicode.IsSpace)`, `Complete` = `fixEntities` + `SortEntities`. -/
+test, `ComputeLength`/`ComputeLengthBytes` sum it over the decoded runes, `fixEntities` trims with
+`strings.TrimRightFunc(_, unicode.IsSpace)`, cuts the message and clamps to `ComputeLength` of the
+CUT message, `Complete` = `fixEntities` + `SortEntities`. -/
 theorem source_shape_facts :
     Facts.C35.runeLenShape = true ∧ Facts.C35.computeLengthShape = true ∧
+    Facts.C35.computeLengthBytesShape = true ∧ Facts.C35.clampToCutMessage = true ∧
     Facts.C35.trimIsTrimRightSpace = true ∧ Facts.C35.completeFixesAndSorts = true := by decide
 
 theorem u16len_append (a b : List Char) : u16len (a ++ b) = u16len a + u16len b := u16len_app a b
@@ -144,6 +159,18 @@ example :
     complete (run [.token, .write ['a'], .format ['😀', 'e', '́', ' ', '　'] [{ kind := 1 }], .apply 0 [{ kind := 0 }]])
       = (['a', '😀', 'e', '́'],
          [{ off := 0, len := 5, kind := 0, cs := 0, ce := 6 }, { off := 1, len := 4, kind := 1, cs := 1, ce := 6 }]) := by
+  decide
+
+/-- Non-vacuity for `WriteRune` with invalid runes and builder re-use: a first message is
+abandoned by `Reset` (its `lengths`/`lastFormatIndex` stay behind, as in the code), then a lone
+surrogate half and a value above U+10FFFF are written as U+FFFD and the following entity still
+starts at the right offset. -/
+example :
+    complete (run [.format ['o', 'l', 'd', ' ', ' '] [{ kind := 0 }], .reset,
+                   .writeRune 0xD83D, .writeRune 0x110000, .writeRune (-1), .writeRune 0x1F600,
+                   .format ['x', ' '] [{ kind := 1 }]])
+      = ([Char.ofNat 0xFFFD, Char.ofNat 0xFFFD, Char.ofNat 0xFFFD, '😀', 'x'],
+         [{ off := 5, len := 1, kind := 1, cs := 4, ce := 6 }]) := by
   decide
 
 end TdModel.C35
